@@ -19,7 +19,7 @@ STD_STUBS = ["model: std HashMap/HashSet/BTreeMap -> Vec-backed models (kani/sup
 HARNESSES = []
 
 
-def H(prop, mod, name, tier="quick", mode="full", timeout=600, **kw):
+def H(prop, mod, name, tier="quick", mode="full", timeout=420, **kw):
     path, f = MODS[mod]
     d = dict(prop=prop, name=name, path=f"{path}::{name}", file=os.path.join(VERIF, "kani", "harness", f),
              tier=tier, mode=mode, timeout=timeout)
@@ -58,6 +58,59 @@ H("C11", "cache_raw", "c11_error_kinds_160", tier="thorough", what="as above, <=
   vars="160 buffer bytes, length", bound="len<=160", **_c11)
 H("C11", "cache_raw", "c11_prefix_160", tier="thorough", what="as above, <=160 bytes",
   vars="160 buffer bytes, length, prefix length", bound="len<=160", **_c11)
+
+# --------------------------------------------------------------------------- C01
+PROPS["C01"] = dict(
+    claim=("both iterate_with_lines kernels (mapper and cache) yield exactly one frame per applying entry, in order, "
+           "with the class, method, ProGuard original-line rule and sourceFile/synthetic/foreign-class file rule of the reference model"),
+    outside="more than 3 entries per (class, method); names other than the fixed shapes; the builders' record->entry encoding (see builder harnesses); text noise / line endings (composition with C06)",
+    assumptions=["builder representation invariant: endline==0 => startline==0, original_startline==0, original_endline==None; endline>0 => startline>0",
+                 "mapping line numbers < 2^32-1 (property domain); frame line any usize"],
+)
+_k = dict(functions=["mapper::iterate_with_lines", "mapper::extract_class_name"], stubs=[], mode="full")
+for _sh in ["own_nofile", "own_file", "own_synth", "foreign_nofile", "foreign_file", "foreign_synth"]:
+    H("C01", "mapper", "c01_mapper_kernel_1_" + _sh, what="mapper kernel == spec, 1 entry of shape " + _sh + ", all integers",
+      vars="4 numbers + original_endline presence, frame line, frame file presence", bound="K=1", **_k)
+_ks = dict(functions=["mapper::iterate_with_lines"], stubs=["mapper::extract_class_name -> constant (infeasible in these shapes; real one checked by the K=1 harnesses)"], mode="full")
+H("C01", "mapper", "c01_mapper_step_2_a", what="inductive step: first applying entry of 2 is returned, iterator positioned after it (shapes own/nofile, foreign/nofile)", vars="numbers of 2 entries, frame line, frame file presence", bound="K=2 per step; induction over suffixes", **_ks)
+H("C01", "mapper", "c01_mapper_step_2_b", what="same, shapes foreign/file + own/nofile", vars="as above", bound="K=2", **_ks)
+H("C01", "mapper", "c01_mapper_step_3", what="same, 3 entries", vars="numbers of 3 entries, frame line", bound="K=3", **_ks)
+
+# --------------------------------------------------------------------------- C03
+PROPS["C03"] = dict(
+    claim="iterate_without_lines (mapper, cache) yields one frame per by-params entry in order with class rule, line 0, no file",
+    outside="which entries the builders put into the by-params index (inline filter, de-duplication, per-class reset, offsets): see builder harnesses",
+    assumptions=[],
+)
+H("C03", "mapper", "c03_mapper_without_lines_kernel", what="mapper iterate_without_lines == spec, 2 entries", vars="entry fields", bound="K=2",
+  functions=["mapper::iterate_without_lines"], stubs=[])
+
+# --------------------------------------------------------------------------- C04
+PROPS["C04"] = dict(
+    claim="remap_class is exact; remap_method answers iff class known, >=1 entry, all entries agree; when it answers every line-remapped frame carries that method",
+    outside="more than 3 entries / 3 classes; names longer than 2 bytes; 'last class line wins' (builder)",
+    assumptions=[],
+)
+H("C04", "mapper", "c04_mapper_remap_method", what="mapper remap_method/remap_class/remap_frame agreement on a hand-built 1-class mapper", vars="entry count 1..3, original names from 3, all line numbers, frame line",
+  bound="<=3 entries", functions=["ProguardMapper::remap_method", "ProguardMapper::remap_class", "ProguardMapper::remap_frame", "mapper::iterate_with_lines"], stubs=STD_STUBS)
+
+# --------------------------------------------------------------------------- C08
+PROPS["C08"] = dict(
+    claim="remap_stacktrace_typed keeps the cause-chain depth, every throwable (remapped or unchanged) and every frame (remapped or unchanged)",
+    outside="depth > 1 cause; more than 2 frames per level; agreement with the text API (C07 is not applicable)",
+    assumptions=[],
+)
+H("C08", "mapper", "c08_mapper_typed", what="mapper typed remap keeps everything", vars="exception present/known/message, 2 frame lines, frame class known, cause present/known",
+  bound="depth<=1, 2 frames", functions=["ProguardMapper::remap_stacktrace_typed", "ProguardMapper::remap_throwable", "ProguardMapper::remap_frame"], stubs=STD_STUBS, timeout=900)
+
+# --------------------------------------------------------------------------- C13
+PROPS["C13"] = dict(
+    claim="compositional panic/overflow freedom: mapper kernel with unrestricted 64-bit numbers, parser step, descriptor tokenizer, frame/throwable parsers",
+    outside="whole build-write-parse-query pipelines; text trace remapping (C07)",
+    assumptions=["builder representation invariant (see C01)"],
+)
+H("C13", "mapper", "c13_mapper_kernel_nopanic", what="mapper iterate_with_lines never panics/overflows, unrestricted numbers", vars="all numbers 64-bit, frame line", bound="K=2",
+  functions=["mapper::iterate_with_lines"], stubs=[])
 
 # --------------------------------------------------------------------------- not applicable / notes
 NOTES = ("All checks are driven by /verif/check; see DESIGN.md. Exit 2 = inconclusive (timeout, OOM, unwinding bound, "
